@@ -106,6 +106,18 @@ def generate(repo, g):
             or sorted((k.arg, u(k.value)) for k in ud[0].keywords) != [('fromfile', 'str(from_p)'), ('tofile', 'str(to_p)')]:
         raise TieBroken('refactoring/__init__.py: get_diff unified_diff call', [u(x) for x in ud])
 
+    # --- calculate_to_path: string prefix replacement or component-wise (relative_to)
+    fn = ref.find('Refactoring.get_changed_files')
+    src_txt = u(fn)
+    if 'p.startswith(str(from_))' in src_txt and 'str(to) + p[len(str(from_)):]' in src_txt:
+        mode = 'string-prefix'
+    elif 'to.joinpath(p.relative_to(from_))' in src_txt and 'startswith' not in src_txt:
+        mode = 'components'
+    else:
+        raise TieBroken('refactoring/__init__.py: calculate_to_path has an unknown shape', src_txt[:600])
+    g.define('toPathMode', 'String', lean_str(mode),
+             'jedi/api/refactoring/__init__.py:Refactoring.get_changed_files.calculate_to_path')
+
     # --- exception classes raised by the refactoring code
     raised = set()
     for s, names in [(ref, ['ChangedFile', 'Refactoring', 'rename', 'inline', '_calculate_rename',
